@@ -10,7 +10,7 @@ CLAIMED = {
    "Trusts the harness reference codec (cross-checked in both directions on every case) and rustc; profile = release + debug-assertions + overflow-checks.",
    "runtime differential oracle (reference codec) + panic/abort monitor", "DESIGN.md §3 C01"),
  "C07": ("codec-lab", "exploration",
-   "Runtime monitoring of every public entry point that reads untrusted value bytes (decode, kind, len+skip, split-off, prefix measurement, unknown-field and unknown-variant capture and re-serialization) under a panic monitor, a peak-allocation monitor and an address-space limit, compared against an independent reference decoder/skipper on random, valid, mutated, truncated and hostile-length inputs. Held on the inputs observed.",
+   "Runtime monitoring of every public entry point that reads untrusted value bytes (decode, kind, len+skip, split-off, prefix measurement, unknown-field and unknown-variant capture and re-serialization) under a panic monitor, a peak-allocation monitor and an address-space limit, compared against an independent reference decoder/skipper on random, valid, mutated, truncated and hostile-length inputs. Held on the inputs observed. Every third case decodes the bytes into one of 28 static Rust target types (MaybeUninit-backed [U; N] / [u8; N] arrays, std collections, tuples, Option, Result): accepted iff the reference value conforms to the target's shape, re-encoding gives the normal form, and a live counter on the element type shows that every constructed element is dropped exactly once, also when decoding fails half-way (leak / double drop / drop of an uninitialised slot); the Miri and ASan slices of the thorough tier run the same cases.",
    "Trusts the harness reference skipper as the definition of acceptance (error kinds are not compared); aborts are attributed through per-case progress files of child processes.",
    "runtime differential oracle + panic/allocation/abort monitors", "DESIGN.md §3 C07"),
  "C13": ("codec-lab", "exploration",
@@ -111,7 +111,7 @@ CLAIMED["C05"] = ("bus-rig+client-rig", "exploration",
    "Two layers. Broker level: generated channel histories (create/claim/close/send-item/add-capacity/disconnect on both ends, capacities 0,1,3,4,5,16,2^32-2,2^32-1, senders within and beyond their announced credit, overflowing grants) against the bus model: end state machine, both credits, conservation (forwarded <= granted, announced <= granted), exactly one claimed/closed notification, starvation check. Client level: producer and consumer on different real clients with the real Sender/Receiver under random schedules and FIFO sizes 1..16: what arrives is the exact in-order prefix of the uniquely numbered items, complete unless one side stopped early, the producer never errors while the consumer reads, both terminate. Held on what was observed.",
    BUS_NOTE + " " + RIG_NOTE, "runtime history-vs-model oracle + exactly-once/in-order log check over real clients under random schedules", "DESIGN.md §4 C05")
 CLAIMED["C06"] = ("client-rig", "exploration",
-   "Random multi-client programs over the public client API (objects, services, calls of every outcome incl. cancelled ones, event subscriptions with emits, proxies dropped, channels across clients, bus listeners, lifetimes, discovery, proxies to dead services, double claims; FIFO sizes 1,2,4,16 and unbounded; negotiated versions 1.14-1.20 through a version-downgrading transport) run under seeded random task schedules with spurious polls. Monitors: panic around every poll, a watchdog for polls that never return, every Client::run and Connection::run returns Ok, every application task finishes by executor quiescence, calls return the echo of their own nonce, events and items carry their own tags in order, and after all clients shut down an idle-shutdown request stops the broker. Held on the (program, schedule) pairs observed.",
+   "Random multi-client programs over the public client API (objects, services, calls of every outcome incl. cancelled ones, event subscriptions with emits, proxies dropped, channels across clients, bus listeners, lifetimes, discovery, proxies to dead services, double claims, families of 2-4 proxies of one service on one client with different subscriptions where one sibling leaves, introspection registered on one client and queried through another, promises kept by the callee until the caller aborts; FIFO sizes 1,2,4,16 and unbounded; negotiated versions 1.14-1.20 through a version-downgrading transport) run under seeded random task schedules with spurious polls. Monitors: panic around every poll, a watchdog for polls that never return, every Client::run and Connection::run returns Ok, every application task finishes by executor quiescence, calls return the echo of their own nonce, events and items carry their own tags in order, and after all clients shut down an idle-shutdown request stops the broker. Held on the (program, schedule) pairs observed.",
    RIG_NOTE, "runtime invariant monitors (panic, hang, quiescence, result consistency) over randomized task schedules", "DESIGN.md §4 C06")
 CLAIMED["C15"] = ("client-rig", "fault_enumeration",
    "For generated multi-client programs with a fixed schedule seed, a counting run numbers the ready transport operations on the victim's pipe; the program is re-run once per operation index with an injected error, an end of stream and a half-open (send-only) failure on the client side, with a fault on the broker side of the pipe, with each clean cause (shutdown requested, broker shutdown, forced by the broker handle) triggered at that index, and with a half-open failure coinciding with the shutdown request; 'last handle dropped' is enumerated over the step boundaries of a fixed script. Oracle: Client::run returns (the injected error / Disconnected / Ok), every task working on the victim's handles has finished at quiescence, operations started after the stop report the shutdown, the broker-side connection task has returned, and the broker still stops when idle. Held on the fault runs observed.",
